@@ -779,6 +779,8 @@ class ReductionOp:
             a["split_every"] = rng.choice([v for v in (2, 3, 4, 8) if v != a.get("split_every")])
             return a
         f = rng.choice(["argmin", "argmax"]) if rng.random() < ctx.p_arg_reduction else rng.choice(REDUCTIONS)
+        if f in ("argmin", "argmax") and any(ctx.env.vars.get(v_) is x for v_ in ctx.inexact):
+            f = rng.choice(["min", "max"])  # an INDEX over values carrying rounding noise is not a function of the program
         a = {"f": f}
         if 0 in x.shape and f in ("min", "max", "argmin", "argmax", "nanmax"):
             return None
@@ -1422,6 +1424,7 @@ class Ctx:
         self.p_closure_fn = 0.25
         self.p_random_auto = 0.0
         self.p_ragged_creation = 0.1
+        self.inexact = set()
         self.p_simlock = 0.0
         self.p_lazy_source = 0.0
         self.p_asarray_false = 0.0
@@ -1451,6 +1454,18 @@ class Ctx:
 def swarm_subset(rng, names, keep_p=0.7, always=()):
     out = [n for n in names if n in always or rng.random() < keep_p]
     return set(out)
+
+
+def _op_inexact(op_name, a):
+    if op_name == "window":
+        return a.get("reduce") in ("mean", "std")
+    if op_name == "reduction":
+        return a.get("f") in ("mean", "var", "std", "nanmean")
+    if op_name == "unary":
+        return a.get("f") in ("sqrtabs", "sin", "exp_small", "round")
+    if op_name == "binary":
+        return a.get("f") in ("hypot",)
+    return op_name in ("random", "map_overlap", "userfn")
 
 
 def gen_step(ctx, leaf_only=False, prefer=None):
@@ -1515,6 +1530,10 @@ def gen_step(ctx, leaf_only=False, prefer=None):
             return None
     v = f"v{ctx.nvars()}"
     ctx.env.vars[v] = out
+    # inexact lineage: values that went through a rounding operation may differ in the last bits between
+    # two legitimate evaluation orders; index-valued results (argmin/argmax) over them are ill-conditioned
+    if any(i in ctx.inexact for i in ins_names + extra) or _op_inexact(name, args):
+        ctx.inexact.add(v)
     ctx.depth[v] = 1 + max([ctx.depth.get(i, 0) for i in ins_names + extra] or [0])
     step = {"op": name, "in": ins_names + extra, "args": args, "out": v}
     ctx.recipe["steps"].append(step)
